@@ -9,9 +9,9 @@ import (
 
 type vconfig struct {
 	utf8, reqtls, binmime, dsn, rrvs bool
-	size, rcptmax                   int
-	tls                             int // 0 none, 1 available, 2 active
-	insecureAuth, authBackend, lmtp bool
+	size, rcptmax                    int
+	tls                              int // 0 none, 1 available, 2 active
+	insecureAuth, authBackend, lmtp  bool
 }
 
 // refCaps: the capability lines the configuration makes available, in any
